@@ -14,10 +14,18 @@ type Spot struct {
 	Kind       string // hdrlen wlen tpal alen flags pfxlen count nhlen caplen optlen parmlen atype
 }
 
+// Region: the bytes [Start,End) governed by the length/count field at Off (Width bytes).
+type Region struct {
+	Kind       string
+	Off, Width int
+	Start, End int
+}
+
 // W builds a message and remembers where its length fields are.
 type W struct {
-	B     []byte
-	Spots []Spot
+	B       []byte
+	Spots   []Spot
+	Regions []Region
 }
 
 func (w *W) u8(v int)  { w.B = append(w.B, byte(v)) }
@@ -25,15 +33,32 @@ func (w *W) u16(v int) { w.B = append(w.B, byte(v>>8), byte(v)) }
 func (w *W) u32(v uint32) {
 	w.B = append(w.B, byte(v>>24), byte(v>>16), byte(v>>8), byte(v))
 }
-func (w *W) bytes(b []byte)                  { w.B = append(w.B, b...) }
-func (w *W) spot(kind string, width int)     { w.Spots = append(w.Spots, Spot{len(w.B), width, kind}) }
-func (w *W) set16(off, v int)                { w.B[off] = byte(v >> 8); w.B[off+1] = byte(v) }
+func (w *W) bytes(b []byte)              { w.B = append(w.B, b...) }
+func (w *W) spot(kind string, width int) { w.Spots = append(w.Spots, Spot{len(w.B), width, kind}) }
+func (w *W) set16(off, v int)            { w.B[off] = byte(v >> 8); w.B[off+1] = byte(v) }
 func (w *W) appendW(o *W) {
 	base := len(w.B)
 	for _, s := range o.Spots {
 		w.Spots = append(w.Spots, Spot{s.Off + base, s.Width, s.Kind})
 	}
+	for _, r := range o.Regions {
+		w.Regions = append(w.Regions, Region{r.Kind, r.Off + base, r.Width, r.Start + base, r.End + base})
+	}
 	w.B = append(w.B, o.B...)
+}
+
+// lenField writes a length field of the given width governing the payload o, then the payload
+func (w *W) lenField(kind string, width int, o *W) {
+	off := len(w.B)
+	w.spot(kind, width)
+	if width == 2 {
+		w.u16(len(o.B))
+	} else {
+		w.u8(len(o.B))
+	}
+	start := len(w.B)
+	w.appendW(o)
+	w.Regions = append(w.Regions, Region{kind, off, width, start, len(w.B)})
 }
 
 type G struct {
@@ -51,7 +76,9 @@ func (g *G) pick(nClean int, xs []int) int {
 }
 func (g *G) chance(p int) bool { return !g.Clean && g.R.Chance(p) }
 
-func (g *G) small() uint32 { return uint32(g.R.Pick([]int{0, 1, 2, 3, 255, 256, 65535, 65536, 23456, 4200000000})) }
+func (g *G) small() uint32 {
+	return uint32(g.R.Pick([]int{0, 1, 2, 3, 255, 256, 65535, 65536, 23456, 4200000000}))
+}
 
 // prefix bytes for a given length; mostly clean host bits
 func (g *G) pfxBytes(plen int, dirty bool) []byte {
@@ -100,6 +127,8 @@ func (g *G) nlri(w *W, afi, safi int, addPath bool) {
 			nl = 80 + g.R.Intn(10)
 		}
 	}
+	pfxOff := len(w.B)
+	defer func() { w.Regions = append(w.Regions, Region{"pfxlen", pfxOff, 1, pfxOff + 1, len(w.B)}) }()
 	w.spot("pfxlen", 1)
 	w.u8(pl + 24*nl)
 	for i := 0; i < nl; i++ {
@@ -155,13 +184,10 @@ func (g *G) attr(w *W, flags, typ int, val *W) {
 	w.spot("atype", 1)
 	w.u8(typ)
 	if ext {
-		w.spot("alen", 2)
-		w.u16(len(val.B))
+		w.lenField("alen", 2, val)
 	} else {
-		w.spot("alen", 1)
-		w.u8(len(val.B))
+		w.lenField("alen", 1, val)
 	}
-	w.appendW(val)
 }
 
 func (g *G) asPath() *W {
@@ -173,6 +199,7 @@ func (g *G) asPath() *W {
 		if cnt == 255 && !g.R.Chance(20) {
 			cnt = 4
 		}
+		cntOff := len(v.B)
 		v.spot("count", 1)
 		v.u8(cnt)
 		as4 := g.K&4 != 0
@@ -186,6 +213,7 @@ func (g *G) asPath() *W {
 				v.u16(int(g.small() & 0xffff))
 			}
 		}
+		v.Regions = append(v.Regions, Region{"count", cntOff, 1, cntOff + 1, len(v.B)})
 	}
 	return v
 }
@@ -204,6 +232,8 @@ func (g *G) mpReach() *W {
 			nhl = g.R.Pick([]int{16, 16, 32})
 		}
 	}
+	nhOff := len(v.B)
+	v.Regions = append(v.Regions, Region{"nhlen", nhOff, 1, nhOff + 1, nhOff + 1 + nhl})
 	v.spot("nhlen", 1)
 	v.u8(nhl)
 	nh := make([]byte, nhl)
@@ -360,6 +390,7 @@ func (g *G) header(typ int, body *W) *W {
 	w.u16(19 + len(body.B))
 	w.u8(typ)
 	w.appendW(body)
+	w.Regions = append(w.Regions, Region{"hdrlen", 16, 2, 19, len(w.B)})
 	return w
 }
 
@@ -369,13 +400,9 @@ func (g *G) Update() *W {
 	if !g.R.Chance(40) {
 		wd = &W{}
 	}
-	b.spot("wlen", 2)
-	b.u16(len(wd.B))
-	b.appendW(wd)
+	b.lenField("wlen", 2, wd)
 	at := g.attrs()
-	b.spot("tpal", 2)
-	b.u16(len(at.B))
-	b.appendW(at)
+	b.lenField("tpal", 2, at)
 	if g.R.Chance(75) {
 		b.appendW(g.nlris(1, 1, g.addPathFor(1, 1), 4))
 	}
@@ -411,9 +438,7 @@ func (g *G) capability(w *W) {
 		v = g.randBytes(r.Intn(5))
 	}
 	w.u8(code)
-	w.spot("caplen", 1)
-	w.u8(len(v.B))
-	w.appendW(v)
+	w.lenField("caplen", 1, v)
 }
 
 func (g *G) Open() *W {
@@ -434,13 +459,9 @@ func (g *G) Open() *W {
 			g.capability(caps)
 		}
 		params.u8(g.pick(8, []int{2, 2, 2, 2, 2, 2, 2, 2, 1, 3}))
-		params.spot("parmlen", 1)
-		params.u8(len(caps.B))
-		params.appendW(caps)
+		params.lenField("parmlen", 1, caps)
 	}
-	b.spot("optlen", 1)
-	b.u8(len(params.B))
-	b.appendW(params)
+	b.lenField("optlen", 1, params)
 	return g.header(1, b)
 }
 
@@ -601,5 +622,83 @@ func Case(r *hx.RNG, corpus [][]byte) (k int, b []byte, stream string) {
 		return k, w.B, "randbody"
 	default:
 		return k, g.randBytes(r.Intn(64)).B, "random"
+	}
+}
+
+// ---------------------------------------------------------------- systematic stream
+// For a length/count field F governing the region R of a message: every boundary value of F combined with a
+// truncation of the message at every offset inside the region F (now) claims; the enclosing length fields are
+// adjusted so that they end exactly at the cut (the message is consistent except for F). This is the stream that
+// finds "field says n, payload ends inside the n bytes" defects.
+
+func boundaryValues(cur, width int) []int {
+	max := 1<<(8*uint(width)) - 1
+	vals := []int{cur, 0, 1, cur - 1, cur + 1, 3, 4, 5, 16, 17, 24, 32, 33, 64, 128, 255, max}
+	seen := map[int]bool{}
+	var out []int
+	for _, v := range vals {
+		if v < 0 || v > max || seen[v] {
+			continue
+		}
+		seen[v] = true
+		out = append(out, v)
+	}
+	return out
+}
+
+func setField(b []byte, off, width, v int) {
+	if width == 2 {
+		b[off], b[off+1] = byte(v>>8), byte(v)
+	} else {
+		b[off] = byte(v)
+	}
+}
+
+// FieldTruncations calls f with every (boundary value of r's field) x (cut inside the claimed region) variant.
+// maxCuts bounds the number of cut offsets tried per value (all of them when the region is shorter).
+func (w *W) FieldTruncations(r Region, maxCuts int, f func(b []byte)) {
+	cur := int(w.B[r.Off])
+	if r.Width == 2 {
+		cur = cur<<8 | int(w.B[r.Off+1])
+	}
+	for _, v := range boundaryValues(cur, r.Width) {
+		claimed := v
+		if r.Kind == "pfxlen" {
+			claimed = (v + 7) / 8
+		} else if r.Kind == "count" {
+			claimed = v * 4
+		} else if r.Kind == "hdrlen" {
+			claimed = v - 19
+		}
+		end := r.Start + claimed
+		if end > len(w.B) {
+			end = len(w.B)
+		}
+		if end < r.Start {
+			end = r.Start
+		}
+		n := end - r.Start + 1
+		step := 1
+		if n > maxCuts {
+			step = (n + maxCuts - 1) / maxCuts
+		}
+		for c := r.Start; c <= end; c += step {
+			b := append([]byte(nil), w.B[:c]...)
+			setField(b, r.Off, r.Width, v)
+			// enclosing regions end at the cut
+			for _, a := range w.Regions {
+				if a.Off == r.Off || a.Start > r.Off || a.End < r.End || a.Off+a.Width > len(b) {
+					continue
+				}
+				switch a.Kind {
+				case "hdrlen":
+					setField(b, a.Off, a.Width, c)
+				case "pfxlen", "count":
+				default:
+					setField(b, a.Off, a.Width, c-a.Start)
+				}
+			}
+			f(b)
+		}
 	}
 }
